@@ -174,7 +174,21 @@ def make_shard_state(rng, accounts, wc=0, extra_currencies=False):
     bits += enc_uint(rng.getrandbits(24), 32) + enc_uint(rng.choice([0, 0, 1, rng.getrandbits(31)]), 32) + enc_uint(rng.getrandbits(31), 32) + enc_uint(rng.getrandbits(48), 64) + enc_uint(rng.getrandbits(24), 32)
     out_q = RCell(rbits(rng, 64), [RCell(rbits(rng, 12))])
     bits += rng.choice('01')  # before_split
-    third = RCell(enc_uint(0, 64) + enc_uint(0, 64) + currency(rng.getrandbits(50)) + currency(rng.getrandbits(20)) + '0' + '0')
+    # ^[ overload_history underload_history total_balance total_validator_fees libraries:(HashmapE 256 LibDescr) master_ref:(Maybe BlkMasterInfo) ]
+    tb = enc_uint(rng.choice([0, rng.getrandbits(64)]), 64) + enc_uint(rng.choice([0, 2 ** 64 - 1, rng.getrandbits(64)]), 64)
+    tb += currency(rng.getrandbits(50)) + currency(rng.getrandbits(20))
+    trefs = []
+    if rng.random() < 0.3:
+        libs = {rng.getrandbits(256): i for i in range(rng.choice([1, 2, 3]))}
+        trefs.append(hashmap.build_hashmap(libs, 256, lambda v: (enc_uint(0, 2) + '1', (RCell(enc_uint(v, 8)), RCell('1' + rbits(rng, 300))))))
+        tb += '1'
+    else:
+        tb += '0'
+    if rng.random() < 0.5:
+        tb += '1' + enc_uint(rng.getrandbits(64), 64) + enc_uint(rng.getrandbits(32), 32) + rbits(rng, 512)     # master_info: ExtBlkRef
+    else:
+        tb += '0'
+    third = RCell(tb, trefs)
     bits += '0'  # custom: nothing
     return RCell(bits, (out_q, acc_cell, third))
 
